@@ -42,3 +42,5 @@ mod c06_rewrite;
 mod c13_utils;
 #[cfg(any(kani, test))]
 mod c12_fix_forms;
+#[cfg(any(kani, test))]
+mod c20_substring;
